@@ -113,7 +113,14 @@ def impl(c):
     except Exception as ex:
         return {"outcome": "ctor:" + type(ex).__name__, "msg": str(ex)[:200]}
     try:
-        y = det.fit(X).predict(X)
+        # ndarray / DataFrame, float / integer-typed; fitted on the data, on a longer series, or on an object overwritten in
+        # place afterwards; possibly used before on other data of the same index (also held by the very object predicted on)
+        if c["det"] == "stat":  # univariate only
+            y = det.fit(X).predict(X)
+        else:
+            data, _ = core.fit_for(det, c, X, reps=1)
+            data = core.prior_use(det, c, X, data)
+            y = det.predict(data)
         return {"outcome": "ok", **frame_info(y)}
     except Exception as ex:
         return {"outcome": "other:" + type(ex).__name__, "msg": str(ex)[:200]}
